@@ -289,10 +289,15 @@ Proof.
   destruct (fut_done (fut_of (set_caller w c CTimedOut) c)); cbn; apply tpre_same; reflexivity.
 Qed.
 
+Lemma caller_cancel_tpre w c : Rsat (tpre w) (caller_cancel w c).
+Proof.
+  unfold caller_cancel. destruct (aget CNone c (callers w)); try apply tpre_refl; try (cbn; apply tpre_same; reflexivity).
+  destruct (fut_done (fut_of (set_caller w c CCancelled) c)); cbn; apply tpre_same; reflexivity.
+Qed.
+
 Lemma caller_wake_tpre w c : Rsat (tpre w) (caller_wake w c).
 Proof.
-  unfold caller_wake. destruct (aget CNone c (callers w)); try apply tpre_refl.
-  - cbn. eexists. reflexivity.
+  unfold caller_wake. destruct (aget CNone c (callers w)); try apply tpre_refl; try (cbn; eexists; reflexivity).
   - assert (G : Rsat (tpre w) (match cur (cx w) with
                          | Some k => if Nat.eqb k c then set_state w Idle HExpired else Ok w
                          | None => Ok w end)).
@@ -306,7 +311,8 @@ Proof. unfold conn_made, conn_lost. split; destruct (state (cx w)); try apply tp
 
 Lemma do_write_tpre w n c : Rsat (tpre w) (do_write cmds plan w n c).
 Proof.
-  unfold do_write. destruct (w_fail (plan n)); [apply set_state_tpre|].
+  unfold do_write. destruct (w_fail (plan n)).
+  { unfold fail_write. destruct (cur (cx w)) as [k|]; [|apply tpre_refl]. destruct (Nat.eqb k c); [|apply tpre_refl]. apply set_state_tpre. }
   cbn. destruct (w_echo (plan n)); destruct (w_rply (plan n)); destruct (rx_hdr (cmds c)); cbn; eexists; reflexivity.
 Qed.
 
@@ -323,10 +329,10 @@ Proof.
     + cbn. apply tpre_same. reflexivity.
   - cbn. apply tpre_same. reflexivity.
   - apply do_write_tpre.
-  - apply caller_start_tpre.
+  - destruct (aget CNone c (callers w)); try apply tpre_refl. apply caller_start_tpre.
   - apply caller_timer_tpre.
   - apply caller_wake_tpre.
-  - destruct e as [k|p| | |d]; [cbn; apply tpre_same; reflexivity|apply pkt_rcvd_tpre|apply conn_tpre|apply conn_tpre|cbn; apply tpre_same; reflexivity].
+  - destruct e as [k|p| | |d|k]; [cbn; apply tpre_same; reflexivity|apply pkt_rcvd_tpre|apply conn_tpre|apply conn_tpre|cbn; apply tpre_same; reflexivity|apply caller_cancel_tpre].
 Qed.
 
 Lemma boundary_same lifo w w' : boundary lifo w = Some w' -> trace w' = trace w /\ futs w' = futs w /\ cx w' = cx w.
@@ -493,6 +499,16 @@ Proof.
     eapply J1_same with (w := set_fut w c FCancelled); [reflexivity|]. apply J1_set_fut; [exact A|discriminate].
 Qed.
 
+Lemma caller_cancel_J w c : J w -> RsatOk (JT w) (caller_cancel w c).
+Proof.
+  intros HJ. pose proof HJ as (A & B & C). unfold caller_cancel.
+  destruct (aget CNone c (callers w)); try (split; [exact HJ|reflexivity]); try (cbn; apply JT_same; try reflexivity; exact HJ).
+  destruct (fut_done (fut_of (set_caller w c CCancelled) c)); cbn.
+  - apply JT_same; try reflexivity. exact HJ.
+  - split; [|reflexivity]. split; [|split; [exact B|exact C]].
+    eapply J1_same with (w := set_fut w c FCancelled); [reflexivity|]. apply J1_set_fut; [exact A|discriminate].
+Qed.
+
 Lemma conn_J w : J w -> RsatOk (JT w) (conn_made w) /\ RsatOk (JT w) (conn_lost w).
 Proof.
   intros HJ. unfold conn_made, conn_lost.
@@ -515,7 +531,8 @@ Proof. intros E (l & A & B). exists l. split; [congruence|exact B]. Qed.
 Lemma do_write_J w n c : J w -> RsatOk (JX w) (do_write cmds plan w n c).
 Proof.
   intros HJ. unfold do_write. destruct (w_fail (plan n)).
-  - eapply RsatOk_weaken; [apply JT_JX|]. apply set_state_J_plain; try exact HJ; try reflexivity; discriminate.
+  - eapply RsatOk_weaken; [apply JT_JX|]. unfold fail_write. destruct (cur (cx w)) as [k|]; [|split; [exact HJ|reflexivity]].
+    destruct (Nat.eqb k c); [|split; [exact HJ|reflexivity]]. apply set_state_J_plain; try exact HJ; try reflexivity; discriminate.
   - cbn. exists [Write (now w) c]. split.
     + destruct (w_echo (plan n)); destruct (w_rply (plan n)); destruct (rx_hdr (cmds c)); reflexivity.
     + intros _. split; [|repeat constructor].
@@ -563,6 +580,9 @@ Proof.
     + (* an assertion tripped inside set_state: the caller is told so *)
       destruct G2 as (l1 & E1). exists (l1 ++ [Done (now w1) c ErrOther]). split; [change (trace w1 ++ [Done (now w1) c ErrOther] = trace w ++ l1 ++ [Done (now w1) c ErrOther]); rewrite E1, app_assoc; reflexivity|].
       rewrite forallb_app. cbn. rewrite andb_false_r. discriminate.
+  - (* cancelled from outside: the caller is told so, nothing else moves *)
+    cbn. eexists. split; [reflexivity|]. intros _. split; [eapply J_same; [| |exact HJ]; reflexivity|].
+    constructor; [exact I|constructor].
 Qed.
 
 Lemma run_cb_JX w c : J w -> RsatOk (JX w) (run_cb cmds plan w c).
@@ -579,15 +599,16 @@ Proof.
     + cbn. apply JT_JX, JT_same; try reflexivity; exact HJ.
   - cbn. apply JT_JX, JT_same; try reflexivity; exact HJ.
   - apply do_write_J, HJ.
-  - apply caller_start_J, HJ.
+  - destruct (aget CNone c (callers w)); try (apply JT_JX; split; [exact HJ|reflexivity]). apply caller_start_J, HJ.
   - eapply RsatOk_weaken; [apply JT_JX|]. apply caller_timer_J, HJ.
   - apply caller_wake_J, HJ.
-  - destruct e as [k|p| | |d].
+  - destruct e as [k|p| | |d|k].
     + cbn. apply JT_JX, JT_same; try reflexivity; exact HJ.
     + eapply RsatOk_weaken; [apply JT_JX|]. apply pkt_rcvd_J, HJ.
     + eapply RsatOk_weaken; [apply JT_JX|]. apply conn_J, HJ.
     + eapply RsatOk_weaken; [apply JT_JX|]. apply conn_J, HJ.
     + cbn. apply JT_JX, JT_same; try reflexivity; exact HJ.
+    + eapply RsatOk_weaken; [apply JT_JX|]. apply caller_cancel_J, HJ.
 Qed.
 
 (* ---------------------------------------------------------------- every run *)
